@@ -78,6 +78,15 @@ theorem skel_jsStart : Gen.Skeletons.jsStart = Ocpp.Expected.jsStart := by decid
 theorem skel_jsStop : Gen.Skeletons.jsStop = Ocpp.Expected.jsStop := by decide
 theorem skel_sdStart : Gen.Skeletons.sdStart = Ocpp.Expected.sdStart := by decide
 theorem skel_sdStop : Gen.Skeletons.sdStop = Ocpp.Expected.sdStop := by decide
+theorem skel_sdDeleteClient : Gen.Skeletons.sdDeleteClient = Ocpp.Expected.sdDeleteClient := by decide
+theorem skel_sdCreateClient : Gen.Skeletons.sdCreateClient = Ocpp.Expected.sdCreateClient := by decide
+theorem skel_wsClientStop : Gen.Skeletons.wsClientStop = Ocpp.Expected.wsClientStop := by decide
+theorem skel_wsClientStart : Gen.Skeletons.wsClientStart = Ocpp.Expected.wsClientStart := by decide
+theorem skel_wsClientConnect : Gen.Skeletons.wsClientConnect = Ocpp.Expected.wsClientConnect := by decide
+theorem skel_wsHandleReconnection : Gen.Skeletons.wsHandleReconnection = Ocpp.Expected.wsHandleReconnection := by decide
+theorem skel_wsServerStop : Gen.Skeletons.wsServerStop = Ocpp.Expected.wsServerStop := by decide
+theorem skel_wsStopConnections : Gen.Skeletons.wsStopConnections = Ocpp.Expected.wsStopConnections := by decide
+theorem skel_wsServerStart : Gen.Skeletons.wsServerStart = Ocpp.Expected.wsServerStart := by decide
 
 /-! non-vacuity: stop with one outstanding and one queued request while disconnected, then restart -/
 example :
